@@ -189,3 +189,232 @@ Proof.
   rewrite (get_hid_tail _ _ _ P1 P2), (get_params_tail _ _ _ P3 Hs Hn), (get_form_key_tail _ _ _ P4 Hk).
   destruct m; reflexivity.
 Qed.
+
+(* ---------------------------------------------------------------- the round trip *)
+Section FormInd.
+  Variable P : form -> Prop.
+  Hypothesis HNumpy : forall m inner itemsize format dt, P (FNumpy m inner itemsize format dt).
+  Hypothesis HEmpty : forall m, P (FEmpty m).
+  Hypothesis HListOffset : forall m o c, P c -> P (FListOffset m o c).
+  Hypothesis HList : forall m s e c, P c -> P (FList m s e c).
+  Hypothesis HRegular : forall m c size, P c -> P (FRegular m c size).
+  Hypothesis HIndexed : forall m i c, P c -> P (FIndexed m i c).
+  Hypothesis HIndexedOption : forall m i c, P c -> P (FIndexedOption m i c).
+  Hypothesis HByteMasked : forall m k c vw, P c -> P (FByteMasked m k c vw).
+  Hypothesis HBitMasked : forall m k c vw lsb, P c -> P (FBitMasked m k c vw lsb).
+  Hypothesis HUnmasked : forall m c, P c -> P (FUnmasked m c).
+  Hypothesis HUnion : forall m t i cs, Forall P cs -> P (FUnion m t i cs).
+  Hypothesis HRecord : forall m ks cs, Forall P cs -> P (FRecord m ks cs).
+  Hypothesis HVirtualNone : forall m hl, P (FVirtual m None hl).
+  Hypothesis HVirtualSome : forall m g hl, P g -> P (FVirtual m (Some g) hl).
+  Fixpoint form_ind' (f : form) : P f :=
+    match f with
+    | FNumpy m inner itemsize format dt => HNumpy m inner itemsize format dt
+    | FEmpty m => HEmpty m
+    | FListOffset m o c => HListOffset m o c (form_ind' c)
+    | FList m s e c => HList m s e c (form_ind' c)
+    | FRegular m c size => HRegular m c size (form_ind' c)
+    | FIndexed m i c => HIndexed m i c (form_ind' c)
+    | FIndexedOption m i c => HIndexedOption m i c (form_ind' c)
+    | FByteMasked m k c vw => HByteMasked m k c vw (form_ind' c)
+    | FBitMasked m k c vw lsb => HBitMasked m k c vw lsb (form_ind' c)
+    | FUnmasked m c => HUnmasked m c (form_ind' c)
+    | FUnion m t i cs =>
+        HUnion m t i cs ((fix G (l : list form) : Forall P l :=
+                            match l with [] => Forall_nil P | x :: xs => Forall_cons x (form_ind' x) (G xs) end) cs)
+    | FRecord m ks cs =>
+        HRecord m ks cs ((fix G (l : list form) : Forall P l :=
+                            match l with [] => Forall_nil P | x :: xs => Forall_cons x (form_ind' x) (G xs) end) cs)
+    | FVirtual m None hl => HVirtualNone m hl
+    | FVirtual m (Some g) hl => HVirtualSome m g hl (form_ind' g)
+    end.
+End FormInd.
+
+Ltac jf := repeat first [ rewrite jfind_eq by reflexivity | rewrite jfind_ne by reflexivity ].
+
+Lemma get_meta_skip k v l :
+  bytes_eqb k k_has_identifier = false -> bytes_eqb k k_has_identities = false ->
+  bytes_eqb k k_parameters = false -> bytes_eqb k k_form_key = false ->
+  get_meta ((k, v) :: l) = get_meta l.
+Proof.
+  intros H1 H2 H3 H4. unfold get_meta, get_hid, get_params, get_form_key.
+  rewrite !jfind_ne by assumption. reflexivity.
+Qed.
+
+Lemma get_meta_tail0 verbose m : meta_wf m = true -> get_meta (j_tail verbose m) = Ok m.
+Proof. intros H. apply (get_meta_tail [] verbose m); auto. Qed.
+
+Ltac dispatch :=
+  repeat match goal with
+  | |- context [bytes_eqb (cstr ?a) ?b] =>
+      let v := eval vm_compute in (bytes_eqb (cstr a) b) in change (bytes_eqb (cstr a) b) with v; cbv iota
+  | |- context [width_preset (cstr ?a) ?g ?x ?y ?z] =>
+      let v := eval vm_compute in (width_preset (cstr a) g x y z) in change (width_preset (cstr a) g x y z) with v; cbv iota
+  | |- context [width_preset2 (cstr ?a) ?g ?x ?y] =>
+      let v := eval vm_compute in (width_preset2 (cstr a) g x y) in change (width_preset2 (cstr a) g x y) with v; cbv iota
+  end.
+
+Ltac other := rewrite jfind_tail_other by (repeat split; reflexivity).
+
+Lemma str2form_form2str o : str2form (cstr (form2str o)) = Ok o.
+Proof. destruct o; reflexivity. Qed.
+Lemma iform_eqb_refl o : iform_eqb o o = true.
+Proof. destruct o; reflexivity. Qed.
+Lemma iform_eqb_eq a b : iform_eqb a b = true -> a = b.
+Proof. destruct a, b; simpl; congruence. Qed.
+
+Lemma get_iform_hit pre field o m :
+  jfind field m = Some (JStr (form2str o)) ->
+  match pre with Some p => p = o | None => True end ->
+  get_iform pre field m = Ok o.
+Proof.
+  intros H Hp. unfold get_iform. rewrite H, str2form_form2str. cbn [bind].
+  destruct pre as [p|]; [subst; rewrite iform_eqb_refl|]; reflexivity.
+Qed.
+
+Lemma from_primitive_name_ok dt : fdtype_eqb dt FNotPrimitive = false ->
+  from_primitive_name (dtype_to_name dt) = Ok (FNumpy meta0 [] (dtype_to_itemsize dt) (dtype_to_format dt) dt).
+Proof. destruct dt as [[]| | | | | | | |]; intros H; try discriminate H; reflexivity. Qed.
+
+Lemma format_to_dtype_canonical dt : fdtype_eqb dt FNotPrimitive = false ->
+  format_to_dtype (dtype_to_format dt) (dtype_to_itemsize dt) = dt.
+Proof. destruct dt as [[]| | | | | | | |]; intros H; try discriminate H; reflexivity. Qed.
+
+Lemma mapM_ints (l : list Z) : forallb is_int32 l = true ->
+  mapM (fun x : json => match x with JInt n => if is_int32 n then Ok n else Err EValue | _ => Err EValue end)
+       (map JInt l) = Ok l.
+Proof.
+  induction l as [|n l IH]; simpl; [reflexivity|]. intros H. apply andb_true_iff in H as [H1 H2].
+  rewrite H1. simpl. rewrite (IH H2). reflexivity.
+Qed.
+
+Definition rt (f : form) : Prop :=
+  forall verbose toplevel, form_wf f = true -> form_fromjson (form_tojson_part verbose toplevel f) = Ok f.
+
+Lemma rt_list (verbose : bool) (cs : list form) :
+  Forall rt cs -> forallb form_wf cs = true ->
+  mapM_id (map form_fromjson (map (form_tojson_part verbose false) cs)) = Ok cs.
+Proof.
+  induction 1 as [|c cs Hc Hcs IH]; intros Hwf; [reflexivity|].
+  simpl in Hwf. apply andb_true_iff in Hwf as [H1 H2]. simpl.
+  rewrite (Hc verbose false H1). simpl. rewrite (IH H2). reflexivity.
+Qed.
+
+Lemma rt_fields (verbose : bool) (cs : list form) : forall ks,
+  Forall rt cs -> forallb form_wf cs = true -> length ks = length cs -> forallb nonul ks = true ->
+  let fs := (fix go (cs : list form) (ks : list bytes) {struct cs} : list (bytes * json) :=
+               match cs, ks with
+               | c :: cs', k :: ks' => (cstr k, form_tojson_part verbose false c) :: go cs' ks'
+               | _, _ => []
+               end) cs ks in
+  mapM_id (map (fun kv : bytes * json => form_fromjson (snd kv)) fs) = Ok cs /\
+  map (fun kv : bytes * json => cstr (fst kv)) fs = ks.
+Proof.
+  intros ks H. revert ks. induction H as [|c cs Hc Hcs IH]; intros [|k ks] Hwf Hlen Hn; simpl in *; try discriminate.
+  - split; reflexivity.
+  - apply andb_true_iff in Hwf as [H1 H2]. apply andb_true_iff in Hn as [N1 N2].
+    destruct (IH ks H2 (f_equal pred Hlen) N2) as [E1 E2].
+    rewrite (Hc verbose false H1). simpl. rewrite E1. simpl. rewrite E2, !(cstr_nonul _ N1). split; reflexivity.
+Qed.
+
+Ltac iform := unfold get_iform; jf; rewrite !str2form_form2str; cbn [bind iform_eqb].
+Ltac meta Hm := repeat rewrite get_meta_skip by reflexivity; rewrite (get_meta_tail0 _ _ Hm); cbn [bind].
+Ltac content IH :=
+  rewrite jfind_map_spec; jf; cbn [option_map req]; rewrite IH by assumption; cbn [bind].
+
+Theorem form_roundtrip_all f : rt f.
+Proof.
+  induction f as [m inner itemsize format dt|m|m o c IH|m s e c IH|m c size IH|m i c IH|m i c IH|m k c vw IH
+                 |m k c vw lsb IH|m c IH|m t i cs IH|m ks cs IH|m hl|m g hl IH] using form_ind';
+    intros verbose toplevel Hwf; simpl in Hwf.
+  - (* NumpyForm *)
+    apply andb_true_iff in Hwf as [Hwf Hf]. apply andb_true_iff in Hwf as [Hwf Hi].
+    apply andb_true_iff in Hwf as [Hwf Hd]. apply andb_true_iff in Hwf as [Hm Hin].
+    apply Z.eqb_eq in Hi. apply bytes_eqb_eq in Hf. apply negb_true_iff in Hd. subst itemsize format.
+    cbn [form_tojson_part].
+    destruct (verbose || toplevel || negb match inner with [] => true | _ => false end || negb (is_plain_meta m)) eqn:Eobj.
+    + (* written as an object *)
+      cbn [form_fromjson]. unfold fromjson_obj.
+      destruct (verbose || negb match inner with [] => true | _ => false end) eqn:Eshape; cbn [app]; jf.
+      * meta Hm. dispatch. jf. rewrite (from_primitive_name_ok dt Hd). cbn [bind].
+        rewrite (mapM_ints inner Hin). cbn [bind]. rewrite (format_to_dtype_canonical dt Hd). reflexivity.
+      * meta Hm. dispatch. jf. rewrite (from_primitive_name_ok dt Hd). cbn [bind].
+        other. cbn [bind]. rewrite (format_to_dtype_canonical dt Hd).
+        destruct inner; [reflexivity|]. destruct verbose; discriminate Eshape.
+    + (* written as the bare primitive name *)
+      cbn [form_fromjson]. rewrite (from_primitive_name_ok dt Hd).
+      destruct verbose; [discriminate|]. destruct toplevel; [discriminate|].
+      destruct inner; [|discriminate]. destruct m as [hid ps key]. unfold is_plain_meta in Eobj. simpl in Eobj.
+      destruct hid; [discriminate|]. destruct ps; [|discriminate]. destruct key; [discriminate|]. reflexivity.
+  - (* EmptyForm *)
+    cbn [form_tojson_part form_fromjson]. unfold fromjson_obj. jf. meta Hwf. dispatch. reflexivity.
+  - (* ListOffsetForm *)
+    apply andb_true_iff in Hwf as [Hwf Hc]. apply andb_true_iff in Hwf as [Hm Ho].
+    cbn [form_tojson_part form_fromjson]. unfold fromjson_obj. cbn [app]. jf. meta Hm.
+    destruct o; try discriminate Ho; dispatch;
+      (iform; content IH; reflexivity).
+  - (* ListForm *)
+    apply andb_true_iff in Hwf as [Hwf Hc]. apply andb_true_iff in Hwf as [Hwf He]. apply andb_true_iff in Hwf as [Hm Hs].
+    apply iform_eqb_eq in He. subst e.
+    cbn [form_tojson_part form_fromjson]. unfold fromjson_obj. cbn [app]. jf. meta Hm.
+    destruct s; try discriminate Hs; dispatch;
+      (iform; content IH; reflexivity).
+  - (* RegularForm *)
+    apply andb_true_iff in Hwf as [Hwf Hc]. apply andb_true_iff in Hwf as [Hm Hs].
+    cbn [form_tojson_part form_fromjson]. unfold fromjson_obj. cbn [app]. jf. meta Hm. dispatch.
+    content IH. jf. rewrite Hs. reflexivity.
+  - (* IndexedForm *)
+    apply andb_true_iff in Hwf as [Hwf Hc]. apply andb_true_iff in Hwf as [Hm Hi].
+    cbn [form_tojson_part form_fromjson]. unfold fromjson_obj. cbn [app]. jf. meta Hm.
+    destruct i; try discriminate Hi; dispatch;
+      (iform; content IH; reflexivity).
+  - (* IndexedOptionForm *)
+    apply andb_true_iff in Hwf as [Hwf Hc]. apply andb_true_iff in Hwf as [Hm Hi].
+    cbn [form_tojson_part form_fromjson]. unfold fromjson_obj. cbn [app]. jf. meta Hm.
+    destruct i; try discriminate Hi; dispatch;
+      (iform; content IH; reflexivity).
+  - (* ByteMaskedForm *)
+    apply andb_true_iff in Hwf as [Hm Hc].
+    cbn [form_tojson_part form_fromjson]. unfold fromjson_obj. cbn [app]. jf. meta Hm. dispatch.
+    iform. content IH. unfold get_bool. jf. reflexivity.
+  - (* BitMaskedForm *)
+    apply andb_true_iff in Hwf as [Hm Hc].
+    cbn [form_tojson_part form_fromjson]. unfold fromjson_obj. cbn [app]. jf. meta Hm. dispatch.
+    iform. content IH. unfold get_bool. jf. reflexivity.
+  - (* UnmaskedForm *)
+    apply andb_true_iff in Hwf as [Hm Hc].
+    cbn [form_tojson_part form_fromjson]. unfold fromjson_obj. cbn [app]. jf. meta Hm. dispatch.
+    content IH. reflexivity.
+  - (* UnionForm *)
+    apply andb_true_iff in Hwf as [Hwf Hc]. apply andb_true_iff in Hwf as [Hwf Hi]. apply andb_true_iff in Hwf as [Hm Ht].
+    apply iform_eqb_eq in Ht. subst t.
+    cbn [form_tojson_part form_fromjson]. unfold fromjson_obj. cbn [app]. jf. meta Hm.
+    destruct i; try discriminate Hi; dispatch;
+      (iform;
+       rewrite jfind_map_spec; jf; cbn [option_map req];
+       rewrite (rt_list verbose cs IH Hc); reflexivity).
+  - (* RecordForm *)
+    apply andb_true_iff in Hwf as [Hwf Hk]. apply andb_true_iff in Hwf as [Hm Hc].
+    destruct ks as [ks|].
+    + apply andb_true_iff in Hk as [Hl Hn]. apply Nat.eqb_eq in Hl.
+      cbn [form_tojson_part form_fromjson]. unfold fromjson_obj. cbn [app]. jf. meta Hm. dispatch.
+      rewrite jfind_map_spec; jf; cbn [option_map req].
+      destruct (rt_fields verbose cs ks IH Hc Hl Hn) as [E1 E2]. rewrite E1. cbn [bind]. rewrite E2. reflexivity.
+    + cbn [form_tojson_part form_fromjson]. unfold fromjson_obj. cbn [app]. jf. meta Hm. dispatch.
+      rewrite jfind_map_spec; jf; cbn [option_map req]. rewrite (rt_list verbose cs IH Hc). reflexivity.
+  - (* VirtualForm without a form *)
+    cbn [form_tojson_part form_fromjson]. unfold fromjson_obj. cbn [app]. jf.
+    apply andb_true_iff in Hwf as [Hm _]. meta Hm. dispatch.
+    rewrite jfind_map_spec; jf; cbn [option_map req bind]. unfold get_bool. jf. reflexivity.
+  - (* VirtualForm with a form *)
+    apply andb_true_iff in Hwf as [Hm Hg].
+    cbn [form_tojson_part form_fromjson]. unfold fromjson_obj. cbn [app]. jf. meta Hm. dispatch.
+    rewrite jfind_map_spec; jf; cbn [option_map req].
+    assert (Hne : forall j, form_fromjson j = Ok g ->
+              match j with JNull => Ok None | _ => do g0 <- form_fromjson j; Ok (Some g0) end = Ok (Some g)).
+    { intros j Hj. destruct j; try (rewrite Hj; reflexivity). discriminate Hj. }
+    rewrite (Hne _ (IH verbose false Hg)). cbn [bind]. unfold get_bool. jf. reflexivity.
+Qed.
+
+Theorem form_json_roundtrip_thm : forall f verbose, form_wf f = true -> form_fromjson (form_tojson verbose f) = Ok f.
+Proof. intros f verbose H. exact (form_roundtrip_all f verbose true H). Qed.
